@@ -41,7 +41,11 @@ formulation objects, every one of which calls the hook `_problem_changed()` befo
 | `_problem_changed`: three flags `= False` (the hook, D19)                | `ArcObj.problemChanged` (= `resetAll`)                    |
 | `add_time_points(pts)`: `self._problem_changed()`; `self.time_points = np.unique(pts)` | `ArcObj.addTimePoints`: hook, then `ArcInst.addTimePoints` (`addTimePointsWith hook` is parametric in the flag action, for the defective variant) |
 | `RoutingProblem.add_node / set_depot / add_arc / set_vehicle_cap / set_initial_loading`: `self._problem_changed()`; `return self.vrptw.<same>(…)` | `ArcObj.mutate m`: hook FIRST, then `gmut .base` (`gstep .base` for the three graph calls, `cap` / `init` fields for the two setters); a raising call (`ValueError`: unknown / duplicate name, inverted window) leaves the problem data as they were, with the flags already unset |
-| `make_feasible`: greedy phase (no cache access)                         | `ArcInst.greedy` (`VrpModel/Cache.lean`)                  |
+| `make_feasible`: `self.time_points[0]` (first read inside the vehicle loop, second read in the dummy-arc loop AFTER `add_arc`) | `makeFeasibleWith`: `match o.inst.T.head?` — `some t0`: the rows below; `none` (EMPTY grid): `emptyGridWith` |
+|   empty grid, `max_vehicles ≥ 1`: `IndexError` at the top of the vehicle loop | `emptyGridWith`: `(o, .error .index)`, object untouched |
+|   empty grid, `max_vehicles = 0`, no unvisited node: `enumerate_variables()`, `feasible_solution = np.zeros(num_variables)`, return | `emptyGridWith`: `o.storeSolution []` |
+|   empty grid, `max_vehicles = 0`, first unvisited `n`: head reset, `assert not check_arc((0,n))`, `self.add_arc(depot, n, 0, high_cost)`, `assert added`, THEN `self.time_points[0]` → `IndexError` | `emptyGridWith`: `head o`, `.error .assert`, `o0.mutate (.op (.addArc …))` (hook, then the arc), `(a.1, .error .index)` — the arc stays, the flags are unset |
+|   greedy phase (non-empty grid; no cache access, no write)              | `ArcInst.greedy` (`VrpModel/Cache.lean`)                  |
 |   `for n in unvisited_indices:` head: three flags `= False`             | `dummyStep`: `head o` (= `resetAll` in the real code)     |
 |   `assert not self.check_arc(arc)`                                      | `dummyStep`: `(o0, .error .assert)` — after the head reset, before any `add_arc` |
 |   `added = self.add_arc(depot_nm, node_nm, 0, high_cost)`               | `o0.mutate (.op (.addArc …))`: the PUBLIC mutator — hook (three flags `= False`) at this program point, then the arc |
@@ -55,7 +59,10 @@ formulation objects, every one of which calls the hook `_problem_changed()` befo
 |   `feasible_solution = None; raise ValueError`                          | `sol := none`, `.error .value`                            |
 
 When `make_feasible` raises midway the object keeps the state reached so far (`makeFeasibleWith` returns the
-partial object together with the error; the stored solution is untouched unless the final lookup fails).
+partial object together with the error; the stored solution is untouched unless the final lookup fails).  This
+includes the empty time grid: the `IndexError` of `self.time_points[0]` in the dummy-arc loop comes after the entry arc of
+the first unvisited node has been added (`ArcObj.emptyGridWith`; specification side `ArcInst.heurEmptyP`, the empty-grid
+branch of `ArcInst.heurP`).
 
 `makeFeasibleWith head exit` is parametric in the two EXPLICIT reset actions (loop head, after the `assert` of
 `check_and_add_exit_arc`) so that variants are expressible; `makeFeasible = makeFeasibleWith resetAll resetAll` is the
@@ -116,8 +123,14 @@ breaks refinement (`seq_setMaxVehicles_nohook_not_refines`).
   a defect that leaves `variables_enumerated` set on changed data is therefore visible through `get_var_index`,
   `get_var_tuple_index`, `get_num_variables` and the shapes, but not inside the three seq builder bodies.
   `get_var_index` for tuples outside the array bounds (numpy `IndexError` / wrap-around) returns `none` here.
-* Greedy phase of the arc heuristic = `ArcInst.greedy`, which reports `.error .index` up front for an empty time grid
-  (the code reaches `self.time_points[0]` only inside a loop) — inherited from `VrpModel/Heuristics.lean`.
+* Greedy phase of the arc heuristic = `ArcInst.greedy` (`VrpModel/Cache.lean`), used here for NON-EMPTY grids only.  On an
+  empty grid `ArcInst.greedy` / `ArcInst.makeFeasible` (`VrpModel/Heuristics.lean`) report `.error .index` up front and
+  carry no partial state; the code reaches `self.time_points[0]` only inside its two loops, so the flag-level model and
+  its specification take the empty grid apart themselves (`emptyGridWith` / `heurEmptyP`) and do not call `greedy`
+  there.  Consequently the connection theorems to `ArcInst.makeFeasible` (`Props/C14c.lean`:
+  `arc_makeFeasible_connection`, `…_run`) assume `o.inst.T ≠ []`; refinement (`arc_refines`) does not.
+* `unvisited_indices.remove(0)` raises `ValueError` on a problem without any node; here the list of unvisited
+  indices is then empty (as in `ArcInst.greedy`).
 -/
 namespace Vrp
 
@@ -357,14 +370,39 @@ def ArcObj.storeSolution (o : ArcObj) (used : List ATup) : ArcObj × Except Err 
   | none => ({ r.1 with sol := none }, .error .value)
   | some idxs => ({ r.1 with sol := some (solVec n idxs) }, .ok ())
 
-/-- `make_feasible(high_cost)` with the two flag actions as parameters -/
+/-- `make_feasible(high_cost)` on an EMPTY time grid (`self.time_points` has no element), in program order.
+    * `max_vehicles ≥ 1`: the first statement of the vehicle loop that touches the grid, `current_time =
+      self.time_points[0]`, raises `IndexError`; nothing has been written.
+    * `max_vehicles = 0`: the vehicle loop is skipped and `unvisited_indices` is still `1 .. N-1`.
+      - no unvisited node: `enumerate_variables()` (honours the flag), `feasible_solution = np.zeros(num_variables)`,
+        no lookup, normal return (`storeSolution []`);
+      - first unvisited node `n`: loop-head reset (`head`), `assert not self.check_arc((0, n))`, the public
+        `self.add_arc(depot, node_n, 0, high_cost)` (hook, then the arc), `assert added`, and only THEN
+        `current_time = self.time_points[0]` → `IndexError`: the object keeps the new arc and the unset flags. -/
+def ArcObj.emptyGridWith (head : ArcObj → ArcObj) (o : ArcObj) (high : Rat) : ArcObj × Except Err Unit :=
+  if o.inst.g.estimateMaxVehicles ≠ 0 then (o, .error .index)
+  else
+    match (List.range (o.inst.g.nodes.length - 1)).map (· + 1) with
+    | [] => o.storeSolution []
+    | n :: _ =>
+      let o0 := head o
+      if o0.inst.g.hasArc 0 n then (o0, .error .assert)
+      else
+        let a := o0.mutate (.op (.addArc (nameOf o0.inst.g 0) (nameOf o0.inst.g n) 0 high))
+        match a.2 with
+        | .ok (some true) => (a.1, .error .index)
+        | _ => (a.1, .error .assert)
+
+/-- `make_feasible(high_cost)` with the two flag actions as parameters.  Empty grid: `emptyGridWith`.  Otherwise
+    `t0 = self.time_points[0]` exists, `ArcInst.greedy` is the vehicle loop (no cache access, no write) and the
+    dummy-arc loop and the final bookkeeping follow. -/
 def ArcObj.makeFeasibleWith (head exit : ArcObj → ArcObj) (o : ArcObj) (high : Rat) : ArcObj × Except Err Unit :=
-  match o.inst.greedy with
-  | .error e => (o, .error e)
-  | .ok (unv, used) =>
-    match o.inst.T.head? with
-    | none => (o, .error .index)
-    | some t0 =>
+  match o.inst.T.head? with
+  | none => ArcObj.emptyGridWith head o high
+  | some t0 =>
+    match o.inst.greedy with
+    | .error e => (o, .error e)
+    | .ok (unv, used) =>
       let r := ArcObj.dummyLoop head exit t0 high o used unv
       match r.2 with
       | .error e => (r.1, .error e)
@@ -512,14 +550,32 @@ def lookupAllI (varIndex : α → Option Nat) : List α → List Nat → Option 
     | none => none
     | some k => lookupAllI varIndex rest (acc ++ [k])
 
+/-- the instance-level heuristic on an EMPTY time grid, INCLUDING its partial effects (no flags, no caches; see
+    `ArcObj.emptyGridWith` for the program points).  `max_vehicles ≥ 1`: `IndexError` in the vehicle loop, nothing
+    written.  `max_vehicles = 0` and no unvisited node: the all-zero solution over the (empty) variable list is stored.
+    `max_vehicles = 0` and a first unvisited node `n`: the entry arc `(0, n)` is added, then `self.time_points[0]`
+    raises `IndexError` and the arc stays. -/
+def ArcInst.heurEmptyP (I : ArcInst) (high : Rat) : ArcInst × HeurRes :=
+  if I.g.estimateMaxVehicles ≠ 0 then (I, .raised .index)
+  else
+    match (List.range (I.g.nodes.length - 1)).map (· + 1) with
+    | [] => (I, .ok (solVec I.vars.length []))
+    | n :: _ =>
+      if I.g.hasArc 0 n then (I, .raised .assert)
+      else
+        let a := gstep .base I.g (.addArc (nameOf I.g 0) (nameOf I.g n) 0 high)
+        match a.2 with
+        | .ok (some true) => ({ I with g := a.1 }, .raised .index)
+        | _ => (I, .raised .assert)
+
 /-- the instance-level heuristic INCLUDING its partial effects when it raises -/
 def ArcInst.heurP (I : ArcInst) (high : Rat) : ArcInst × HeurRes :=
-  match I.greedy with
-  | .error e => (I, .raised e)
-  | .ok (unv, used) =>
-    match I.T.head? with
-    | none => (I, .raised .index)
-    | some t0 =>
+  match I.T.head? with
+  | none => I.heurEmptyP high
+  | some t0 =>
+    match I.greedy with
+    | .error e => (I, .raised e)
+    | .ok (unv, used) =>
       let r := arcDummyLoopI t0 high I used unv
       match r.2 with
       | .error e => (r.1, .raised e)
